@@ -359,7 +359,15 @@ pub fn run_property(prop: &Prop, opt: &Options) -> i32 {
                         stop.store(true, Ordering::Relaxed);
                         break;
                     }
-                    let scen = (prop.generate)(opt.seed, i, opt.tier);
+                    let scen = match catch_unwind(AssertUnwindSafe(|| (prop.generate)(opt.seed, i, opt.tier))) {
+                        Ok(s) => s,
+                        Err(_) => {
+                            stop.store(true, Ordering::Relaxed);
+                            let what = crate::props::c14::LAST_PANIC.with(|l| l.borrow().clone());
+                            results.lock().unwrap().insert(i, PerRun { report: RunReport::default(), violation: None, harness: Some(format!("harness panic while generating run {i}: {what}")), suite: "?".into() });
+                            break;
+                        }
+                    };
                     let suite = scen.suite.clone();
                     let pr = match run_exec(prop, &scen) {
                         Exec::Ok(r) => PerRun { report: r, violation: None, harness: None, suite },
